@@ -10,28 +10,43 @@
    Set-up lock of a loaded EA-MUS song: the format's volume model and two chips are in force (locked-inforce:..),
    an accepted setter is stored (locked-stick:..), the stored requests are in force once the lock is gone
    (locked-apply:.. locked-persist:..), a call that reports failure does not end the lock (reject-unlocked).
+   Sequences of music files of different containers on one instance (SMF, EA-MUS, GMF, DMX MUS, XMIDI, refused CMF / IMF): every
+   load is judged on THAT file -- accepted / refused as the model predicts (load-refused, load-accepted, reload-after-reject),
+   music mode and sequencer format of its own container afterwards (load-mode, load-format), and through the documented state
+   the lock and the settings in force (a GMF / MUS / SMF / XMIDI song after the EA-MUS song ends the lock: locked-apply:..,
+   inforce:.., stick:.. of the setters that follow).
    Leg C: the recorded step is a step of the model, from the recorded pre-state (stateless), either of
    the code as it stands (Fix = {}) or of the repaired design; otherwise it is recorded as drift. *)
 EXTENDS Settings, Json, IOUtils
 T == ndJsonDeserialize(IOEnv.TRACE)
-MaxFails == 400
+MaxFails == 400                     \* no total cap: at most MaxPerLabel entries per label (w), MaxFails only bounds the label count
+MaxPerLabel == 40
 AllFix == {"numchips", "trackopt", "dumper", "rsxxlock"}
-VARIABLES l, pre, R, fails, cnt, drift, exec, xf
-vars == <<l, pre, R, fails, cnt, drift, exec, xf>>
+VARIABLES l, pre, R, fails, cnt, drift, exec, xf, seen, nl
+vars == <<l, pre, R, fails, cnt, drift, exec, xf, seen, nl>>
 Cnt0 == [steps |-> 0, execs |-> 0, stick |-> 0, auto |-> 0, persist |-> 0, rejected |-> 0, rejbank |-> 0, rejmidi |-> 0,
          reload |-> 0, bankreset |-> 0, force |-> 0, twin |-> 0, probetwin |-> 0, probeaudio |-> 0, probesand |-> 0,
          play |-> 0, playloop |-> 0, hookfire |-> 0, hooksilent |-> 0, crashes |-> 0, voidinvalid |-> 0,
          lockenter |-> 0, locksteps |-> 0, lockstick |-> 0, lockdefer |-> 0, lockrelease |-> 0, lockapply |-> 0,
          lockreject |-> 0, lockplay |-> 0,
+         loadgmf |-> 0, loadmus |-> 0, loadxmi |-> 0, refusedimf |-> 0, refusedcmf |-> 0, loadjudged |-> 0,
+         loadafterlock |-> 0, loadafterrefused |-> 0, loadafterxmi |-> 0, loadthird |-> 0,
          refined |-> 0, drifted |-> 0, asis |-> 0, fixed |-> 0]
-Init == l = 1 /\ pre = Derive(S0) /\ R = R0 /\ fails = <<>> /\ cnt = Cnt0 /\ drift = <<>> /\ exec = 0 /\ xf = FALSE
+Init == l = 1 /\ pre = Derive(S0) /\ R = R0 /\ fails = <<>> /\ cnt = Cnt0 /\ drift = <<>> /\ exec = 0 /\ xf = FALSE /\ seen = {} /\ nl = 0
 
 Norm(o) == [o EXCEPT !.cd = IF o.nt = 0 THEN 0 ELSE @]
 Args(ev) == [k \in DOMAIN ev \ {"oa", "ob", "pa", "pb", "e"} |-> ev[k]]
 Tag(S, ev) == { [p |-> "C18", w |-> x, l |-> l, x |-> exec, e |-> ev.e, d |-> ToString(Args(ev))] : x \in S }
 \* only the first failing step of an execution is reported (with all its labels): what follows a broken
 \* step is a consequence, and the verdict logic looks at the first failure of a history anyway
-AddFails(S, already) == IF already \/ Len(fails) >= MaxFails \/ S = {} THEN fails ELSE fails \o SetToSeq(S)
+\* (a valid music file re-establishes the per-song state of the instance and of its twin: from there on the labels this
+\* execution has not shown yet are reported again -- what a listed finding left behind must not hide the load that follows it)
+\* The list is capped per label, never in total.
+NLabel(fl, w) == Cardinality({ i \in DOMAIN fl : fl[i].w = w })
+AddFails(S, already) ==
+  IF already \/ S = {} THEN fails
+  ELSE fails \o SetToSeq({ x \in S : NLabel(fails, x.w) < MaxPerLabel })
+Rearm(ev) == ev.e = "OpenMidi" /\ ev.bad = 0
 B2N(c) == IF c THEN 1 ELSE 0
 
 Proj(o) == [f \in ModelF |-> o[f]]
@@ -45,6 +60,7 @@ StepInit(ev) ==
   IN /\ pre' = a /\ R' = R0 /\ exec' = exec + 1
      /\ fails' = AddFails(Tag(TwinFails(a, b) \cup ForceFails(a, R0), ev), FALSE)
      /\ xf' = (TwinFails(a, b) \cup ForceFails(a, R0) # {})
+     /\ seen' = TwinFails(a, b) \cup ForceFails(a, R0) /\ nl' = 0
      /\ drift' = IF d # {} /\ Len(drift) < 8 THEN Append(drift, [l |-> l, x |-> exec + 1, e |-> "Init", d |-> ToString(d)]) ELSE drift
      /\ cnt' = [cnt EXCEPT !.execs = @ + 1, !.steps = @ + 1, !.twin = @ + 1, !.force = @ + 1, !.refined = @ + 1, !.drifted = @ + B2N(d # {})]
 
@@ -54,7 +70,7 @@ StepCall(ev) ==
       failed == Failed(ev, r)
       R1 == RefStep(R, ev, r, pre)
       ex == IF failed THEN {} ELSE Exp(ev, pre, R)
-      f == CallFails(pre, ev, r, a, R, R1) \cup ForceFails(a, R1) \cup ReloadFails(ev, r, R) \cup TwinFails(a, b)
+      f == CallFails(pre, ev, r, a, R, R1) \cup ForceFails(a, R1) \cup ReloadFails(ev, r, R) \cup LoadFails(ev, r, a, R) \cup TwinFails(a, b)
            \cup (IF ev.e = "Probe" THEN ProbeFails(ev, R) ELSE {})
            \cup (IF ev.e = "PlaySong" THEN PlayFails(ev.pa, a, R1) \cup (IF ev.pa # ev.pb THEN {"play-twin"} ELSE {}) ELSE {})
       m0 == ModelStep(Proj(pre), ev, {})
@@ -63,8 +79,11 @@ StepCall(ev) ==
       ok1 == Matches(m1, a, ev, r)
       played == ev.e = "PlaySong" /\ ev.pa.played = 1 /\ R1.song # 0
       nreg == Cardinality({ h \in DOMAIN R1.hooks : R1.hooks[h] = 1 })
+      kind == IF ev.e = "OpenMidi" /\ ev.bad = 0 /\ ~failed THEN ev.s ELSE 0       \* the accepted file
   IN /\ pre' = a /\ R' = R1 /\ exec' = exec
-     /\ fails' = AddFails(Tag(f, ev), xf) /\ xf' = (xf \/ f # {})
+     /\ fails' = (IF Rearm(ev) THEN AddFails(Tag(f \ seen, ev), FALSE) ELSE AddFails(Tag(f, ev), xf))
+     /\ xf' = (xf \/ f # {}) /\ seen' = seen \cup f
+     /\ nl' = nl + B2N(ev.e = "OpenMidi" /\ R.hasBank)          \* music files handed to this instance so far
      /\ drift' = IF ~ok0 /\ ~ok1 /\ Len(drift) < 8
                  THEN Append(drift, [l |-> l, x |-> exec, e |-> ev.e, d |-> ToString(<<Args(ev), DiffF(m0, a, ev, r)>>)]) ELSE drift
      /\ cnt' = [cnt EXCEPT
@@ -94,6 +113,17 @@ StepCall(ev) ==
           !.lockapply = @ + B2N(R1.rel /\ (a.nc # 2 \/ (R.req.gvm \notin {-1, 1} /\ ev.e # "OpenBank"))),
           !.lockreject = @ + B2N(R.locked /\ failed),
           !.lockplay = @ + B2N(played /\ R1.locked),
+          \* sequences of files: accepted GMF / MUS / XMIDI songs, refused IMF / CMF images, loads judged on their own result,
+          \* a GMF / MUS / XMIDI song given to an instance whose set-up was locked / whose last file was refused / that was in
+          \* XMIDI mode / that had been given two files before
+          !.loadgmf = @ + B2N(kind = 4), !.loadmus = @ + B2N(kind = 5), !.loadxmi = @ + B2N(kind = 6),
+          !.refusedimf = @ + B2N(failed /\ ev.e = "OpenMidi" /\ ev.bad = 5 /\ ev.s = 7),
+          !.refusedcmf = @ + B2N(failed /\ ev.e = "OpenMidi" /\ ev.bad = 5 /\ ev.s # 7),
+          !.loadjudged = @ + B2N(ev.e = "OpenMidi" /\ R.hasBank),
+          !.loadafterlock = @ + B2N(kind \in {4, 5, 6} /\ R.locked),
+          !.loadafterrefused = @ + B2N(kind \in {4, 5, 6} /\ R.afterReject),
+          !.loadafterxmi = @ + B2N(kind \in {4, 5} /\ pre.fmt = FmtXMIDI),
+          !.loadthird = @ + B2N(kind \in {4, 5, 6} /\ nl >= 2),
           !.play = @ + B2N(played),
           !.playloop = @ + B2N(played /\ Passes(R1) # 1),
           !.hookfire = @ + (IF played THEN nreg ELSE 0),
@@ -104,17 +134,17 @@ StepCall(ev) ==
 StepCrash(ev) ==
   /\ fails' = AddFails({[p |-> "C18", w |-> "crash:" \o ev.stage, l |-> l, x |-> exec, e |-> "Crash", d |-> ToString(ev.sig)]}, xf)
   /\ cnt' = [cnt EXCEPT !.crashes = @ + 1] /\ xf' = TRUE
-  /\ UNCHANGED <<pre, R, drift, exec>>
+  /\ UNCHANGED <<pre, R, drift, exec, seen, nl>>
 
 Next ==
   \/ /\ l <= Len(T) /\ l' = l + 1
      /\ LET ev == T[l] IN
         CASE ev.e = "Init" -> StepInit(ev)
           [] ev.e = "Crash" -> StepCrash(ev)
-          [] ev.e = "End" -> UNCHANGED <<pre, R, fails, cnt, drift, exec, xf>>
+          [] ev.e = "End" -> UNCHANGED <<pre, R, fails, cnt, drift, exec, xf, seen, nl>>
           [] OTHER -> StepCall(ev)
   \/ /\ l = Len(T) + 1 /\ l' = l + 1
      /\ PrintT(<<"RESULT", ToJson([n |-> Len(T), fails |-> fails, cnt |-> cnt, drift |-> drift])>>)
-     /\ UNCHANGED <<pre, R, fails, cnt, drift, exec, xf>>
+     /\ UNCHANGED <<pre, R, fails, cnt, drift, exec, xf, seen, nl>>
 Spec == Init /\ [][Next]_vars
 =============================================================================
